@@ -11,7 +11,7 @@
                                   sign product, zero absorbing, NaN propagating (all inside `mulDivSat`)
     C09_mul_wrap                  Wrapping `*=` = exponent sum modulo 2^(nbits-1), sign product, specials
     C09_div_wrap                  Wrapping `/=` = exponent difference modulo 2^(nbits-1), sign product, specials (full
-                                  statement; holds since the repair f65bb52 `lexp -= rexp` — before it the code added)
+                                  statement; holds since the repair 848b03b `lexp -= rexp` — before it the code added)
     C09_neg                       unary minus flips the sign of numbers and fixes zero and NaN
     C09_nan_propagates_mul/div, C09_zero_absorbing_mul, C09_sign_product_sat   readable corollaries
     C09_blocktype_independent_*   the result does not depend on the block width (u8/u16/u32/… all agree)
@@ -95,6 +95,16 @@ theorem C09_div_sat (c : Cfg) (hn : 2 ≤ c.nbits) (hw : 1 ≤ c.w) (hs : c.wrap
     ∀ v, mulDivSat c.nbits true (decode c.nbits a) (decode c.nbits b) = some v → decode c.nbits (div c a b) = v := by
   unfold div
   simp only [isNaN_eq hn hw ha, isNaN_eq hn hw hb, isZero_eq hn hw ha, isZero_eq hn hw hb, sign_eq hw, hs]
+  -- the zero-divisor test is the first one (code after the fix of `exc.lns.div.nan_by_zero`): x / 0 is NaN; the property
+  -- constrains it only for x = NaN (NaN propagates)
+  by_cases h4 : b = 2 ^ (c.nbits - 2)
+  · simp only [h4, decide_true, if_true, setNaN_eq hn]
+    refine ⟨nanEnc_lt hn, ?_⟩
+    rw [decode_zeroEnc hn, decode_nanEnc hn]
+    intro v hv
+    cases hd : decode c.nbits a <;> rw [hd] at hv <;> simp [mulDivSat] at hv
+    exact hv
+  simp only [h4, decide_false, Bool.false_eq_true, if_false]
   by_cases h1 : a = 2 ^ (c.nbits - 1) + 2 ^ (c.nbits - 2)
   · simp only [h1, decide_true, if_true]
     refine ⟨nanEnc_lt hn, ?_⟩
@@ -107,20 +117,6 @@ theorem C09_div_sat (c : Cfg) (hn : 2 ≤ c.nbits) (hw : 1 ≤ c.w) (hs : c.wrap
     intro v hv
     cases hd : decode c.nbits a <;> rw [hd] at hv <;> simpa [mulDivSat] using hv
   simp only [h2, decide_false, Bool.false_eq_true, if_false]
-  by_cases h4 : b = 2 ^ (c.nbits - 2)
-  · simp only [h4, decide_true, if_true, setNaN_eq hn]
-    refine ⟨nanEnc_lt hn, ?_⟩
-    rw [decode_zeroEnc hn]
-    intro v hv
-    cases hd : decode c.nbits a <;> rw [hd] at hv <;> simp [mulDivSat] at hv
-    -- a = NaN is excluded by h1
-    have := decode_nanEnc hn (n := c.nbits)
-    exfalso
-    by_cases h3 : a = 2 ^ (c.nbits - 2)
-    · rw [h3, decode_zeroEnc hn] at hd; cases hd
-    · obtain ⟨_, _, hda⟩ := decode_numeric hn ha h3 h1
-      rw [hda] at hd; cases hd
-  simp only [h4, decide_false, Bool.false_eq_true, if_false]
   obtain ⟨lb1, lb2, hdb⟩ := decode_numeric hn hb h4 h2
   by_cases h3 : a = 2 ^ (c.nbits - 2)
   · simp only [h3, decide_true, if_true]
@@ -182,7 +178,7 @@ theorem C09_mul_wrap (c : Cfg) (hn : 2 ≤ c.nbits) (hw : 1 ≤ c.w) (hs : c.wra
 
 /-- C09, Wrapping division: exponent field = exact DIFFERENCE reduced modulo 2^(nbits-1), sign = product of signs,
     0/x = 0, NaN propagating, x/0 unconstrained — for every configuration and operand pair
-    (the full statement; the code was repaired in commit f65bb52, before that it added the exponents). -/
+    (the full statement; the code was repaired in commit 848b03b, before that it added the exponents). -/
 theorem C09_div_wrap (c : Cfg) (hn : 2 ≤ c.nbits) (hw : 1 ≤ c.w) (hs : c.wrap = true) (a b : Nat)
     (ha : a < 2 ^ c.nbits) (hb : b < 2 ^ c.nbits) :
     mulDivWrapOk c.nbits true (decode c.nbits a) (decode c.nbits b) (div c a b) = true := by
@@ -200,6 +196,10 @@ theorem C09_div_wrap (c : Cfg) (hn : 2 ≤ c.nbits) (hw : 1 ≤ c.w) (hs : c.wra
   · -- a zero or NaN operand: the prologue
     unfold div
     simp only [isNaN_eq hn hw ha, isNaN_eq hn hw hb, isZero_eq hn hw ha, isZero_eq hn hw hb, sign_eq hw, hs]
+    by_cases h4 : b = 2 ^ (c.nbits - 2)
+    · simp only [h4, decide_true, if_true, setNaN_eq hn, decode_zeroEnc hn]
+      cases decode c.nbits a <;> simp [mulDivWrapOk, decode_nanEnc hn]
+    simp only [h4, decide_false, Bool.false_eq_true, if_false]
     by_cases h1 : a = 2 ^ (c.nbits - 1) + 2 ^ (c.nbits - 2)
     · simp [h1, decode_nanEnc hn, mulDivWrapOk]
     simp only [h1, decide_false, Bool.false_eq_true, if_false]
@@ -207,10 +207,6 @@ theorem C09_div_wrap (c : Cfg) (hn : 2 ≤ c.nbits) (hw : 1 ≤ c.w) (hs : c.wra
     · simp only [h2, decide_true, if_true, setNaN_eq hn, decode_nanEnc hn]
       cases decode c.nbits a <;> simp [mulDivWrapOk, decode_nanEnc hn]
     simp only [h2, decide_false, Bool.false_eq_true, if_false]
-    by_cases h4 : b = 2 ^ (c.nbits - 2)
-    · simp only [h4, decide_true, if_true, setNaN_eq hn, decode_zeroEnc hn]
-      cases decode c.nbits a <;> simp [mulDivWrapOk, decode_nanEnc hn]
-    simp only [h4, decide_false, Bool.false_eq_true, if_false]
     obtain ⟨_, _, hdb⟩ := decode_numeric hn hb h4 h2
     by_cases h3 : a = 2 ^ (c.nbits - 2)
     · simp [h3, decode_zeroEnc hn, hdb, mulDivWrapOk]
